@@ -240,6 +240,7 @@ def check_call_skeleton(ex, reg, src, implicit, adaptive):
     havocking stubs that set the Newton flag nondeterministically.  Obligation: on every normal return of an implicit
     method the last executed step had newton_iteration_success true; every retry is issued with min(new, old) step."""
     fi = src.func(FT, "RungeKuttaIntegrator.__call__")
+    ex.fork_unrolled_guards = True          # a retry loop written as `while <symbolic verdict> and <concrete counter test>` is followed on both outcomes
     st = State()
     sd = st.new_obj("dict", "dict", items=dict(redo_count=0, num_step_retries=2))
     keep = frozenset(["redo_count", "num_step_retries", "safety_factor", "order", "atol", "rtol"])
@@ -360,10 +361,19 @@ def run(tier):
                 check_splitting(ex, reg, src, name, m)
         from . import intcall
         for implicit, adaptive in ((True, False), (True, True), (False, True), (False, False)):
-            ex = make_executor(src, reg)
-            check_call_skeleton(ex, reg, src, implicit, adaptive)
-            # ... and for every retry budget (retry loop cut by an invariant, props/intcall.py)
-            intcall.check_rk_call_unbounded(reg, src, PID, implicit, adaptive)
+            lbl = "implicit" if implicit else ("adaptive" if adaptive else "explicit-fixed")
+            # each of the two views of the retry logic is decided on its own: a rewrite of the loop that one of them cannot follow
+            # (undecided) must not hide what the other one finds
+            try:
+                ex = make_executor(src, reg)
+                check_call_skeleton(ex, reg, src, implicit, adaptive)
+            except Unsupported as e:
+                reg.undecided("%s/__call__[%s]/unrolled-skeleton-unsupported" % (PID, lbl), "unsupported", "executor", str(e))
+            try:
+                # ... and for every retry budget (retry loop cut by an invariant, props/intcall.py)
+                intcall.check_rk_call_unbounded(reg, src, PID, implicit, adaptive)
+            except Unsupported as e:
+                reg.undecided("%s/__call__[%s]/cut-loop-unsupported" % (PID, lbl), "unsupported", "executor", str(e))
     except Unsupported as e:
         reg.undecided(PID + "/executor/unsupported", "unsupported", "executor", str(e))
     # ---- the consumer side of the nonlinear solve: step() accepts iff `success and prec < desired_tol`; that `prec` is the residual norm at the
